@@ -108,4 +108,39 @@ PROPS = {
         "level_text": "Theorems (Props/C31.lean): with Known{v} every register and every memory word outside the OS image and the I/O page is (v, uninitialised), the I/O page is initialised zero; the model's history is a function of exactly flags, filler stream, OS image, MCR and the set-up (program, device state incl. keyboard bytes, timer sample streams, scripted interrupts, lock flags) - no model function has any other argument. The part no Lean model can carry - that the Rust runtime has no further hidden input (hash iteration order, rand::random, addresses, time) - is tested, not proved: each generated configuration (Seeded and Known initialisation, seeded timer, keyboard input) is run twice in independent interpreters and every op's digest must be identical; run 1 is also compared with the model (the seeded memory image is dumped to it).",
         "level_note": BASE_NOTE + "Partial: reproducibility of the implementation is established by the paired runs of this check, a test.",
     },
+    "C13": {
+        "sub": "c13", "functional": True,
+        "status": "partial: loop_unfold (stop order), fuel monotonicity, MCR-off stop, limit tripwire, first-step-always and depth conditions of step_over/step_out, step_out at depth 0, limit_split at loop level, comparator and breakpoint tables; the API-level split statement (observer cleared per call) and step_over/step_out 'first boundary' as one theorem are composed from these, and checked by the split-vs-unbroken oracle",
+        "assumptions": ["resumed segments are those paused by the limit, the tripwire or a breakpoint (a resume after a real-trap HALT re-enters the OS halt loop and is compared with the model only)", "the MCR cleared by another thread is modelled as cleared between two loop iterations (harness: from the tripwire closure)"],
+        "level_text": "Theorems for all programs, states and fuel (Props/C13.lean): the event loop is by definition MCR check, tripwire, one step, breakpoint check (so runs execute exactly the instructions single steps would, a breakpoint is only tested after an executed instruction, a cleared MCR stops the loop before the next instruction); results are stable under more fuel; run_with_limit never starts an instruction once max were counted; step_over/step_out always execute the first instruction and continue while the depth is above / at-or-above the starting depth; step_out at depth 0 executes nothing; a limit run of a+b passes through the state where the limit-a run paused and continues from there identically (limit_split); comparator/breakpoint semantics. Correspondence: generated programs with loops, calls, traps; random sequences of run_with_limit, step_in, step_over, step_out, run, breakpoint inserts, MCR clears; every call's state/instruction count/hit flags compared; oracle: chopped run equals unbroken run.",
+        "level_note": BASE_NOTE + "Thread scheduling is not modelled: the MCR flag changes only between iterations.",
+    },
+    "C10": {
+        "sub": "c10", "functional": True,
+        "status": "partial: gate, boundary-only, arbitration, full entry specification, RTI specification and rti_undoes_entry are theorems for all states (stack/vector in plain memory, non-strict); transparency of whole runs with register-restoring handlers is composed from these (+C09) and checked by the interrupted-vs-uninterrupted oracle, not yet one theorem",
+        "assumptions": ["supervisor stack words and the vector entry lie below the I/O page (otherwise the pushes are MMIO writes)", "handlers save and restore what they use and return with RTI (the property's contract)"],
+        "level_text": "Theorems (Props/C10.lean): an interrupt is taken iff the poll's winner is vectored with priority above the PSR's, and then the step is exactly the supervisor entry (no fetch): interrupts happen only at instruction boundaries; the poll's winner is at least as urgent as every request raised in that poll (external above vectored); entry from any state: privileged, CC=Z, priority set (kept for traps), old PSR at SSP-1 and old PC at SSP-2, R6=SSP-2, PC=M[vector], user R6 stored in the saved SP when coming from user mode, one frame, no other cell/register/device changed; RTI pops PC and PSR, R6+2, swaps back for a user PSR, pops a frame; RTI executed on an entered state restores PC, PSR (CC, privilege, priority), R6, saved SP, all registers, frame depth and all memory but the two pushed words. Correspondence: programs with scripted interrupt devices (competing priorities, nesting), seeded timer, keyboard interrupts, three handler kinds; first 10-50 boundaries stepped and compared, final state compared with the model and with the uninterrupted implementation run.",
+        "level_note": BASE_NOTE,
+    },
+    "C11": {
+        "sub": "c11", "functional": True,
+        "status": "partial: the routine listings of the regenerated OS image are proved to be the known-good routines (vectors x20-x25, default trap/interrupt handlers, device pointers, prompt string); TRAP entry / RTI restore everything (C10); the Hoare-style contract of each listing is not yet a theorem and is evaluated on the implementation and compared with the model for every case",
+        "assumptions": ["keyboard/display locks free (C33 covers contention)", "supervisor stack in plain memory"],
+        "level_text": "Theorems re-checked against /repo's current os.asm on every run (the OS image module is regenerated by the translator): each of the trap vectors x20-x25 points at code whose decoded listing is exactly the intended routine (GETC poll-KBSR/load-KBDR/RTI; OUT push/poll-DSR/pop/store-DDR/RTI; PUTS save, loop{load, stop at zero word, OUT, advance}, restore, RTI; IN prompt+GETC+OUT; PUTSP low byte then high byte via eight shift rounds, stop at first zero byte; HALT clears MCR in a loop), device pointers resolve to KBSR/KBDR/DSR/DDR/MCR, default vectors print their message; TRAP entry and RTI restore PC, PSR/CC, privilege and stack pointers (C10.rti_undoes_entry). Correspondence + contract oracle: every trap invoked from user code with random strings/registers/CC/keyboard queues, stepped and compared with the model; the contract (bytes emitted, input consumed, R0, all other registers, PSR, return address) evaluated on the implementation.",
+        "level_note": BASE_NOTE + "Partial: semantic contracts of the listings are tested (oracle) rather than proved so far.",
+    },
+    "C12": {
+        "sub": "c12", "functional": True,
+        "status": "partial: lockstep, other_vectors_same, virtual_breaks, real_trap_vectoring (C08) and the exception-handler listings with their exact messages are theorems; the whole-program statement composes them with C11's contracts and is checked by the paired-run oracle",
+        "assumptions": ["user-mode programs; OS image loaded (true after Simulator::new)"],
+        "level_text": "Theorems (Props/C12.lean, C08): the real-traps flag is consulted only for vectors x25/x100/x101/x102 and in the step wrapper: a step whose inner part succeeds is identical under both settings; entries through any other vector ignore the flag; under virtual traps HALT/exceptions stop with the break leaving memory/registers untouched and prefetch_pc at the faulting instruction; under real traps they become supervisor entries at the OS vectors, which (on the regenerated image) point at handlers that PUTS exactly the message of that exception and then HALT. Correspondence + oracle: programs using every I/O trap and programs faulting in each way run under both settings, compared with the model and pairwise (same display, R0-R5, user memory; OS message + halt for faults).",
+        "level_note": BASE_NOTE,
+    },
+    "C33": {
+        "sub": "c33", "functional": True, "known_on_mismatch": False,
+        "status": "partial + recorded finding F19: exactly-once holds when no lock is held at a KBDR read / DDR store (device-level theorems); the full property is false of the current code (theorems kbdr_denied_stale / ddr_denied_lost, reproduced on the implementation and printed as KNOWN-FINDING)",
+        "assumptions": ["a lock can change state only between two instructions of the simulator thread (what try_write observes)"],
+        "level_text": "Theorems at device / memory-access level for all states (Props/C33.lean): with the lock free a KBDR read consumes exactly the front byte and returns it, a DDR store appends exactly one byte; with the lock held at a KBSR/DSR poll the device reads not-ready and nothing changes (the OS routines poll again); with the lock held at the KBDR read or DDR store the read answers nothing (the load returns the stale mirror word, byte stays queued) and the store is refused (byte lost) - the mechanism of finding F19. Correspondence: echo programs under exhaustive 16-bit denial patterns over the first device accesses and random per-step patterns, the harness holding the real RwLock write guards; every step compared with the model; oracle: display = input exactly once in order; failures with a denied KBDR read/DDR store are the known finding, any other failure is a violation.",
+        "level_note": BASE_NOTE + "Real thread interleavings are represented by the per-step lock oracle only. F19 is listed in known_findings.json (status open).",
+    },
 }
